@@ -90,6 +90,10 @@ class Gen:
             base += r.choice([' sp', '(p)', "'q", '"d', ',c', 'é', ';s', ' ', ')', '('])
         if self.hc == 'url-backslash' and r.random() < 0.6:
             base += r.choice(['\\b', '\\44', '\\'])
+        if self.hc == 'url-control' and r.random() < 0.7:
+            # control characters and nothing else that forces quotes (CR and FF are white space in CSS just like LF and TAB)
+            c = r.choice(['\r', '\f', '\n', '\t', '\x0b', '\x01', '\x7f'])
+            base = r.choice([c + 'ab.png', 'a' + c + 'b.png', 'ab.png' + c, 'img/' + c + c + 'x.gif'])
         return base
 
     # ---- components -----------------------------------------------------------------------------------
@@ -491,7 +495,7 @@ class Renderer:
         for ch in content:
             if ch == q or ch == '\\':
                 out.append('\\' + ch)
-            elif ch in '\n\r\f':
+            elif ch in '\n\r\f' or (ord(ch) < 32 and ch != '\t') or ord(ch) == 127:
                 out.append('\\%x ' % ord(ch))
             elif self.s['escapes'] and self.r.random() < 0.1 and ch.isalpha() and ord(ch) < 128:
                 out.append('\\%06x ' % ord(ch))  # always terminated: a following space would be eaten as terminator
@@ -529,7 +533,7 @@ class Renderer:
             return self.string(c[1])
         if k == 'url':
             body = c[1]
-            plain_ok = body and not any(ch in body for ch in ' \t\n()\'",\\;')
+            plain_ok = body and not any(ch in body for ch in ' \t\n\r\f()\'",\\;') and not any(ord(ch) < 32 or ord(ch) == 127 for ch in body)
             if plain_ok and self.s['quotes'] != 'mixed' and self.r.random() < 0.5 or plain_ok and self.s['quotes'] == 'mixed' and self.r.random() < 0.3:
                 inner = body
             else:
